@@ -11,6 +11,7 @@ pub mod routing;
 pub mod deadline;
 pub mod reconnect;
 pub mod shutdown;
+pub mod health;
 
 /// Shared event recorder so that events survive a panic or hang of the run.
 #[derive(Clone, Default)]
@@ -46,6 +47,7 @@ fn run_one(lab: &str, stim: &Value, rec: &Rec) {
         "deadline" => deadline::run(stim, rec),
         "reconnect" => reconnect::run(stim, rec),
         "shutdown" => shutdown::run(stim, rec),
+        "health" => health::run(stim, rec),
         _ => { eprintln!("unknown lab {lab}"); std::process::exit(2) }
     }
 }
